@@ -375,7 +375,21 @@ func c20BlankDoneVsSetSource(w *fw.Worker, i int, r *fw.Rand) {
 	select {
 	case errRep = <-rep:
 	case <-time.After(10 * time.Second):
-		errRep = fmt.Errorf("still blocked after 10s")
+		// not a verdict by itself: the report is stuck if nobody is going to take it - the monitor gone, or parked in
+		// its own select, in two dumps 300ms apart while the report is still pending
+		s1, _ := monitorState()
+		time.Sleep(300 * time.Millisecond)
+		s2, _ := monitorState()
+		select {
+		case errRep = <-rep:
+		default:
+			if s1 == s2 && (s1 == "gone" || s1 == "idle") {
+				errRep = fmt.Errorf("still blocked after 10s, the monitor goroutine being %s in two dumps", s1)
+			} else {
+				w.Inconclusive(i, fmt.Sprintf("the watcher's report has not returned after 10s; monitor state %s/%s", s1, s2))
+				return
+			}
+		}
 	}
 	if errRep != nil {
 		w.Violation(i, "watcher-cut-off-after-successful-setsource", fmt.Sprintf("SetSource(watcher) returned nil, but the watcher's next blocking report failed: %v", errRep), desc)
